@@ -314,7 +314,7 @@ def c09(ctx):
             "a final read; random entry path per key; N=3, R in {1,2}; every history is non-trivial (operations fall within one ttl of the deadline)"
             + "; keys with an hour to live (every option form) sharing small tables with deleted fillers while the compaction timer runs; a dozen keys of one partition expiring together and rewritten a few ms later while the eviction workers are slowed down at their trace points")
     return reg_run(ctx, "TestC09", "c09.ndjson", "c09.summary.json",
-                   {"VERIF_ROUNDS": 2 if quick else 60, "VERIF_PER_BATCH": 40 if quick else 60, "VERIF_MASS": 3 if quick else 40},
+                   {"VERIF_ROUNDS": 2 if quick else 60, "VERIF_PER_BATCH": 40 if quick else 60, "VERIF_MASS": 3 if quick else 40, "VERIF_STRADDLE": 3 if quick else 30},
                    [], rule, "expiry visibility", tags_of=ttl_tags)
 
 
@@ -334,7 +334,7 @@ def c08(ctx):
     vlib.design_expect_violation(ctx, "LockSpec", "LockSpec_retry.cfg", "LockHasOwner", "D34 (the cluster client before the repair)", name="LockSpec-retry")
     return reg_run(ctx, "TestC08", "c08.ndjson", "c08.summary.json",
                    {"VERIF_ROUNDS": 2 if quick else 40, "VERIF_PER_BATCH": 20 if quick else 30, "VERIF_RACES": 2 if quick else 25, "VERIF_SIMUL": 30 if quick else 400,
-                    "VERIF_IMPATIENT": 4 if quick else 40},
+                    "VERIF_IMPATIENT": 4 if quick else 40, "VERIF_COMPACTED_LOCKS": 4 if quick else 40},
                    [("LockSpec", "LockSpec.cfg", {})], rule, "distributed lock", tags_of=ttl_tags)
 
 
@@ -711,7 +711,7 @@ def c19(ctx):
     allfile = os.path.join(out, "all.jsonl")
     open(allfile, "w").write("\n".join(allp) + "\n")
     return det_run(ctx, "reg", "TestC19", "c19.ndjson", "c19.summary.json", "IsolationTrace", "IsolationTrace.cfg",
-                   {"VERIF_BEH": behfile, "VERIF_BEH_ALL": allfile, "VERIF_C19_RANDOM": 30 if quick else 4000, "VERIF_OUT": out}, [], rule, "DMap isolation and Destroy",
+                   {"VERIF_BEH": behfile, "VERIF_BEH_ALL": allfile, "VERIF_C19_RANDOM": 30 if quick else 4000, "VERIF_C19_BACKGROUND": 2 if quick else 12, "VERIF_OUT": out}, [], rule, "DMap isolation and Destroy",
                    tags_of=lambda head, evs, line, msg: {"msg": msg})
 
 
